@@ -9,7 +9,7 @@ from typing import List, Optional
 from ..facts import emission_sites, registry_model, value_set
 from ..fold import RegexConst, fold_in_fn
 from ..minieval import Evaluator, Obj, Unsupported
-from ..model import AnalysisError, text, walk_fn
+from ..model import AnalysisError, Undecided, text, walk_fn
 from ..regexlang import (Lit, Rep, UNIVERSE, UnsupportedRegex, from_pattern, from_template, included,
                          intersection_witness)
 
@@ -187,7 +187,7 @@ def rule_language(run, prog):
         cond_ok = r_ok.emitted == [] and r_ko.emitted == ["INVALID_HEADER"] and len(r_ok.searched) == 1 and len(r_ko.searched) == 1
         why = f"matching: {r_ok.emitted}, not matching: {r_ko.emitted}, applications: {len(r_ok.searched)}/{len(r_ko.searched)}"
     except Unsupported as e:
-        raise AnalysisError(f"CheckHeader.run is outside the evaluable subset: {e}")
+        raise Undecided(f"CheckHeader.run is outside the evaluable subset: {e}")
     run.ob("R-13.1", f"{fn.key}::none-means-invalid", cond_ok,
            f"INVALID_HEADER is not emitted exactly when the regular expression does not match ({why})", fn.node)
     tot_states = st["states"]
@@ -238,8 +238,10 @@ def simulate_header_machine(prog, seq, rx_ok: bool):
     remod = {"compile": compile_, "search": lambda p, s, f=0: apply(s), "match": lambda p, s, f=0: apply(s),
              "fullmatch": lambda p, s, f=0: apply(s)}
     remod.update(flags)
-    ev = Evaluator(methods, natives={("Context", "new_error"): new_error, ("Context", "new_warning"): new_error},
-                   modules={"re": remod}, max_steps=200000)
+    from ..stubrun import ModuleAwareEvaluator
+    ev = ModuleAwareEvaluator(prog, methods, natives={("Context", "new_error"): new_error, ("Context", "new_warning"): new_error},
+                              modules={"re": remod}, max_steps=200000)
+    ev.globals.update({"str": str, "list": list, "tuple": tuple, "print": lambda *a, **k: None})
     # patterns compiled at module level / string constants hoisted there
     for nm, vals in ch.mod.assigns.items():
         if len(vals) == 1 and isinstance(vals[0], ast.Call) and text(vals[0].func) == "re.compile":
@@ -304,7 +306,7 @@ def rule_machine(run, prog):
                         if rec.searched != [expect]:
                             bad_text = (seq, rec.searched, expect)
     except Unsupported as e:
-        raise AnalysisError(f"CheckHeader.run is outside the evaluable subset: {e}")
+        raise Undecided(f"CheckHeader.run is outside the evaluable subset: {e}")
     run.ob("R-13.3", f"{runm.key}::two-flag-machine", bad is None,
            (f"statement sequence {bad[0]} with the regex {'matching' if bad[1] else 'failing'} emits {bad[2]}, expected "
             f"{bad[3]} INVALID_HEADER") if bad else "ok", runm.node, sequences=n_seq)
